@@ -45,9 +45,11 @@ inductive FinishCase {π β} (pl : Plug π β) (head : Nat) (st : St β) (c : Na
       FinishCase pl head st c cm fr
         (st.addBuild { commit := c, parents := fr, explicit := cm.isMatch, bns := buildNums cm (c == head) }
           bn bpar new pb bumps na)
-  | skip (bpar : List (Nat × List Nat)) (new pb : List Nat) :
+  | skip (bpar : List (Nat × List Nat)) (new pb : List Nat) (pbs : List (RB β)) (bumps : β) :
       (cm.tags ≠ [] ∨ c = head) → (pl.rel = true ∨ fr ≠ []) → findNew st.rp st.br fr = .ok (bpar, new, pb) →
       cm.isMatch = false → new = [] → pb.length ≤ 1 →
+      buildsOf st.rp pb = some pbs → pl.mkBumps cm.pins (pbs.map (·.bumps)) = .ok bumps →
+      pl.nonTrivial bumps = false →
       FinishCase pl head st c cm fr (st.skipBuild c fr (buildNums cm (c == head)) bpar pb)
   | plainMatch : cm.tags = [] → c ≠ head → cm.isMatch = true →
       FinishCase pl head st c cm fr
@@ -106,7 +108,7 @@ theorem finish_cases {π β} {pl : Plug π β} {head : Nat} {st : St β} {c : Na
               cases hf
               simp at hr
               have hm : cm.isMatch = false := hr.1.1.1
-              refine .skip bpar new pb h1' ?_ hfn hm hr.1.1.2 (by omega)
+              refine .skip bpar new pb pbs bumps h1' ?_ hfn hm hr.1.1.2 (by omega) hpbs hb hr.1.2
               rcases h0' with h | h | h
               · rw [hm] at h; cases h
               · exact Or.inl h
@@ -170,7 +172,7 @@ theorem finish_classify_ne {π β} {pl : Plug π β} {head : Nat} {st : St β} {
     simp only [St.addBuild]
     rw [classify_builds]
     exact classify_addRC_ne _ _ _ hne
-  | skip bpar new pb => exact classify_addPlain_ne _ _ _ _ hne
+  | skip bpar new pb pbs bumps => exact classify_addPlain_ne _ _ _ _ hne
   | plainMatch => exact classify_addRC_ne _ _ _ hne
   | plain => exact classify_addPlain_ne _ _ _ _ hne
 
